@@ -344,12 +344,6 @@ def classify(p, ref, boa, probe=None):
         return "early-error-missing"
     if bc == "E:SyntaxError" and rc != "E:SyntaxError":
         return "early-error-spurious"
-    # operand read after the right operand's side effect:  x OP (x = ..)
-    for b in nodes(p, "EBinary") + nodes(p, "ECall") + nodes(p, "EArray") + nodes(p, "ETemplate") + nodes(p, "EOpAssign"):
-        if b[0] == "EBinary" and b[2][0] == "EId" and tuple(b[2][1]) in _assigned_ids(b[3]):
-            return "operand-read-after-rhs-effect"
-        if b[0] == "EOpAssign" and b[2][0] == "EId" and tuple(b[2][1]) in _assigned_ids(b[3]):
-            return "operand-read-after-rhs-effect"
     # a store to a const in its TDZ raises the "assignment to constant" TypeError instead of the TDZ ReferenceError
     if ("ReferenceError" in rt + rc) and (bt + bc).replace("TypeError", "ReferenceError") == rt + rc:
         consts = set()
@@ -360,6 +354,19 @@ def classify(p, ref, boa, probe=None):
             return "tdz-const-assign-typeerror"
     # TDZ not enforced / wrong binding through switch
     nref_r, nref_b = (rt + rc).count("ReferenceError"), (bt + bc).count("ReferenceError")
+    try:
+        ra, ba = json.loads(rt), json.loads(bt)
+    except Exception:
+        ra, ba = [], []
+    def subseq(x, y):
+        it = iter(y)
+        return all(any(a == b for b in it) for a in x)
+    if "ReferenceError" in rt + rc and len(ra) < len(ba) and subseq(ra, ba):
+        nref_r = max(nref_r, nref_b + 1)        # boa ran on (printed more) where the oracle threw a ReferenceError
+    if "ReferenceError" in bt + bc and len(ba) < len(ra) and subseq(ba, ra):
+        nref_b = max(nref_b, nref_r + 1)
+    d1 = first_diff(ref, boa)
+    same_shape = bool(d1 and d1[0] == "t" and d1[2] is not None and d1[3] is not None and len(d1[2].split(" ")) == len(d1[3].split(" ")))
     if has(p, "SSwitch") and nref_r > nref_b:
         return "switch-tdz-missing"
     if nref_b > nref_r:
@@ -378,6 +385,12 @@ def classify(p, ref, boa, probe=None):
         if lex & _assigned_ids({k: p[k] for k in ("p_funcs", "p_body")}):
             return "tdz-assign-before-init"
         return "tdz-missing"
+    # operand read after the right operand's side effect:  x OP (x = ..)
+    for b in (nodes(p, "EBinary") + nodes(p, "EOpAssign")) if same_shape else []:
+        if b[0] == "EBinary" and b[2][0] == "EId" and tuple(b[2][1]) in _assigned_ids(b[3]):
+            return "operand-read-after-rhs-effect"
+        if b[0] == "EOpAssign" and b[2][0] == "EId" and tuple(b[2][1]) in _assigned_ids(b[3]):
+            return "operand-read-after-rhs-effect"
     # object rest keeps a key consumed by a nested pattern
     for po in nodes(p, "PObj"):
         if po[2] is not None and any(q[1][0] in ("PObj", "PArr") for q in po[1]):
